@@ -1,6 +1,8 @@
 mod catalogue;
 mod dynty;
 mod gen;
+#[rustfmt::skip]
+mod generated;
 mod guard;
 mod obs;
 mod ops;
@@ -23,13 +25,31 @@ fn main() {
     // panics are observations; keep them quiet
     std::panic::set_hook(Box::new(|_| {}));
     let mut out = obs::Sink::new(outdir);
-    let cat = catalogue::catalogue();
+    let mut cat = catalogue::catalogue();
+    let n_builtin = cat.len();
+    // derived items come after the built-ins common to both io configurations? no: they are the same in
+    // both, so they are inserted before the io_std-only tail to keep the common prefix aligned
+    let derived = generated::derived_catalogue();
+    let _ = n_builtin;
+    cat.extend(derived);
     let budget = Budget { values: if thorough { 60 } else { 8 }, thorough };
     let mut g = Gen::new(seed);
     if prop == "C04" || prop == "C16" {
         ops::c04_corpus(&mut out);
     }
     if prop == "IO" {
+    } else if prop == "C06" {
+        // the derived items only: round trip, bytes vs specification, malformed input, variants
+        for e in &generated::derived_catalogue() {
+            for sub in ["C01", "C02", "C04"] {
+                let mut ge = g.fork();
+                (e.run)(sub, &mut ge, &budget, &mut out);
+            }
+        }
+        for run in generated::derived_enum_catalogue() {
+            let mut ge = g.fork();
+            run(&mut ge, &budget, &mut out);
+        }
     } else if prop == "C15" {
         guard::guard_workload(&mut out);
     } else if prop == "C14" {
@@ -44,7 +64,7 @@ fn main() {
         }
     }
     if ["C08", "C09", "C10", "C17"].contains(&prop) {
-        for (_, run) in catalogue::schema_catalogue() {
+        for (_, run) in catalogue::schema_catalogue().into_iter().chain(generated::derived_schema_catalogue()) {
             let mut ge = g.fork();
             run(&mut ge, &budget, &mut out);
         }
